@@ -10,11 +10,20 @@ ENGINES = [
      "kind_free_text": "the current source of _type_casting/_core/serde is recompiled into shadow modules whose numpy/mmap/open/os globals are shims over z3 bit-vector cells and z3 arrays; the real tensor code then runs on fully symbolic payloads, offsets and file contents"},
     {"name": "hist (on zsym)", "path": "engine/hist.py, engine/irlib.py", "serves_properties": ["C01", "C06", "C11", "C12"],
      "kind_free_text": "bounded edit histories over the real IR classes with symbolic operand selectors and payload ints; z3 decides path feasibility, every feasible path is explored and its witness re-executed natively (guard against proxy intolerance)"},
-    {"name": "zsym", "path": "engine/zsym.py", "serves_properties": ["C04", "C07", "C10"],
+    {"name": "zsym", "path": "engine/zsym.py", "serves_properties": ["C04", "C07", "C10", "C15"],
      "kind_free_text": "execution of the real functions on z3 Int/Real/String proxies with re-execution DFS over branch decisions; property = SMT query per path"},
 ]
 NOT_APPLICABLE = {}
 CHECKS = {
+    "C15": dict(
+        engine="zsym (z3 strings) + hist", level="other", design_ref="DESIGN.md section 4 / C15",
+        technique="symbolic execution (zsym): name-authority add/remove/re-add histories with explicit names as arbitrary z3 strings; NameFixPass and rename_values over symbolic name-slot assignments with per-path native re-execution",
+        text=("Part 1: on a real Graph, histories of up to 4 additions/removals/re-additions of nodes whose explicit node and value names are ARBITRARY strings (z3 sequence theory) are explored; z3 proves every generated name "
+              "differs from every name registered or generated before and explicit names are untouched - names shaped like generated ones are found by the solver, not listed. Part 2: NameFixPass on every assignment of colliding "
+              "pool names to 6 value and 2 node slots across a nested scope and a function (non-empty, unique per scope incl. enclosing scopes, initializer keys, nothing but names changed, unique names kept, idempotent); "
+              "rename_values over all pairs x targets and all rotations (complete or not at all)."),
+        note="Trusted: z3; the two name sets of the authority replaced by list-backed symbolic sets; proxies cross-checked by native re-execution. Longer names/histories and custom name generators are outside the bound.",
+    ),
     "C16": dict(
         engine="nia (translation validation)", level="translation_validation", design_ref="DESIGN.md section 4 / C16",
         technique="translation validation in non-linear integer/real arithmetic (z3): library result vs reference semantics for ALL positive integer bindings; parser vs Python's grammar on all token strings up to a length bound",
